@@ -9,7 +9,7 @@
                  saveBlockByHeight                            WPutHeight b
                  saveStates (state.Commit + trieDB.Commit)    WState (root b)
                  updateVerifyHash                             WPutV (height b) (hash b)
-                 updateTxPool (MarkExecuted)                  -- pool store, not modelled (C17)
+                 updateTxPool (MarkExecuted: one batch)       WExec (txs b)   (no write when txs = [])
                  topBlocks.Add                                -- volatile cache
                  updateLastBlock  heightDB["bcurrent"]        WCur b
                  eraseAddBlockMark                            WDelAddMark
@@ -18,18 +18,23 @@
                                                               WDelHash, WDelHeight, WDelV
                  preBlock := queryBlockByHash(PreHash); nil => return false   (read, after the deletes)
                  heightDB["bcurrent"] := preHeader            WCur p
-                 UnMarkExecuted                               -- pool store
+                 UnMarkExecuted (one Delete per tx)           WUnexec t, for t in txs b
                  eraseRemoveBlockMark                         WDelRmMark
    ensureChainConsistency: addMark => remove(block); eraseAddBlockMark
                            removeMark (re-read) => remove(block); eraseRemoveBlockMark
-   The lru caches (topBlocks, verifiedBlocks) are modelled as transparent; futureBlocks (orphans,
-   keyed by parent hash, volatile) is the [fut] argument. *)
+   verifyBlock: verifiedBlocks hit => accepted without any check; else parent missing => refused;
+                a transaction of the block already in the executed store => refused (Proposal008);
+                else (checkStates passes for valid blocks) verifiedBlocks.Add.
+   The lru cache topBlocks is modelled as transparent; verifiedBlocks (volatile, remove() deletes the
+   removed block's entry; capacity 20 not modelled) is the [vf] argument; futureBlocks (orphans, keyed
+   by parent hash, volatile) is the [fut] argument. The pool's pending list is volatile and belongs to
+   C17's model; here only its durable executed store (key = tx hash) is modelled. *)
 From Coq Require Import List NArith Bool.
 Import ListNotations.
 Local Open Scope N_scope.
 
 (* hash = abstract id (order-isomorphic to the real 32-byte hashes); qn = TotalQN (cumulative). *)
-Record block := mkB { hash : N; pre : N; height : N; qn : N; pv : N; root : N }.
+Record block := mkB { hash : N; pre : N; height : N; qn : N; pv : N; root : N; txs : list N }.
 
 Record st := mkS {
   byHash   : N -> option block;   (* hashDB: hash -> block *)
@@ -38,7 +43,8 @@ Record st := mkS {
   cur      : option block;        (* heightDB["bcurrent"] *)
   amark    : option block;        (* hashDB["addBlockMark"] *)
   rmark    : option block;        (* hashDB["removeBlockMark"] *)
-  roots    : N -> bool            (* state roots that can be opened from the state store *)
+  roots    : N -> bool;           (* state roots that can be opened from the state store *)
+  exec     : N -> bool            (* the pool's executed store: tx hash present *)
 }.
 
 Inductive write :=
@@ -48,24 +54,28 @@ Inductive write :=
 | WPutHeight (b : block) | WDelHeight (n : N)
 | WPutV (n h : N) | WDelV (n : N)
 | WCur (b : block)
-| WState (r : N).
+| WState (r : N)
+| WExec (ts : list N) | WUnexec (t : N).
 
 Definition upd {A} (f : N -> A) (k : N) (v : A) : N -> A := fun x => if x =? k then v else f x.
 
 Definition apply1 (s : st) (w : write) : st :=
   match w with
-  | WAddMark b   => mkS (byHash s) (byHeight s) (vhash s) (cur s) (Some b) (rmark s) (roots s)
-  | WDelAddMark  => mkS (byHash s) (byHeight s) (vhash s) (cur s) None (rmark s) (roots s)
-  | WRmMark b    => mkS (byHash s) (byHeight s) (vhash s) (cur s) (amark s) (Some b) (roots s)
-  | WDelRmMark   => mkS (byHash s) (byHeight s) (vhash s) (cur s) (amark s) None (roots s)
-  | WPutHash b   => mkS (upd (byHash s) (hash b) (Some b)) (byHeight s) (vhash s) (cur s) (amark s) (rmark s) (roots s)
-  | WDelHash h   => mkS (upd (byHash s) h None) (byHeight s) (vhash s) (cur s) (amark s) (rmark s) (roots s)
-  | WPutHeight b => mkS (byHash s) (upd (byHeight s) (height b) (Some b)) (vhash s) (cur s) (amark s) (rmark s) (roots s)
-  | WDelHeight n => mkS (byHash s) (upd (byHeight s) n None) (vhash s) (cur s) (amark s) (rmark s) (roots s)
-  | WPutV n h    => mkS (byHash s) (byHeight s) (upd (vhash s) n (Some h)) (cur s) (amark s) (rmark s) (roots s)
-  | WDelV n      => mkS (byHash s) (byHeight s) (upd (vhash s) n None) (cur s) (amark s) (rmark s) (roots s)
-  | WCur b       => mkS (byHash s) (byHeight s) (vhash s) (Some b) (amark s) (rmark s) (roots s)
-  | WState r     => mkS (byHash s) (byHeight s) (vhash s) (cur s) (amark s) (rmark s) (upd (roots s) r true)
+  | WAddMark b   => mkS (byHash s) (byHeight s) (vhash s) (cur s) (Some b) (rmark s) (roots s) (exec s)
+  | WDelAddMark  => mkS (byHash s) (byHeight s) (vhash s) (cur s) None (rmark s) (roots s) (exec s)
+  | WRmMark b    => mkS (byHash s) (byHeight s) (vhash s) (cur s) (amark s) (Some b) (roots s) (exec s)
+  | WDelRmMark   => mkS (byHash s) (byHeight s) (vhash s) (cur s) (amark s) None (roots s) (exec s)
+  | WPutHash b   => mkS (upd (byHash s) (hash b) (Some b)) (byHeight s) (vhash s) (cur s) (amark s) (rmark s) (roots s) (exec s)
+  | WDelHash h   => mkS (upd (byHash s) h None) (byHeight s) (vhash s) (cur s) (amark s) (rmark s) (roots s) (exec s)
+  | WPutHeight b => mkS (byHash s) (upd (byHeight s) (height b) (Some b)) (vhash s) (cur s) (amark s) (rmark s) (roots s) (exec s)
+  | WDelHeight n => mkS (byHash s) (upd (byHeight s) n None) (vhash s) (cur s) (amark s) (rmark s) (roots s) (exec s)
+  | WPutV n h    => mkS (byHash s) (byHeight s) (upd (vhash s) n (Some h)) (cur s) (amark s) (rmark s) (roots s) (exec s)
+  | WDelV n      => mkS (byHash s) (byHeight s) (upd (vhash s) n None) (cur s) (amark s) (rmark s) (roots s) (exec s)
+  | WCur b       => mkS (byHash s) (byHeight s) (vhash s) (Some b) (amark s) (rmark s) (roots s) (exec s)
+  | WState r     => mkS (byHash s) (byHeight s) (vhash s) (cur s) (amark s) (rmark s) (upd (roots s) r true) (exec s)
+  | WExec ts     => mkS (byHash s) (byHeight s) (vhash s) (cur s) (amark s) (rmark s) (roots s)
+                        (fun t => existsb (N.eqb t) ts || exec s t)
+  | WUnexec t    => mkS (byHash s) (byHeight s) (vhash s) (cur s) (amark s) (rmark s) (roots s) (upd (exec s) t false)
   end.
 
 Definition apply (ws : list write) (s : st) : st := fold_left apply1 ws s.
@@ -75,7 +85,8 @@ Definition crash (k : nat) (ws : list write) (s : st) : st := apply (firstn k ws
 
 (* ---- insertBlock ---- *)
 Definition insert_writes (b : block) : list write :=
-  [WAddMark b; WPutHash b; WPutHeight b; WState (root b); WPutV (height b) (hash b); WCur b; WDelAddMark].
+  [WAddMark b; WPutHash b; WPutHeight b; WState (root b); WPutV (height b) (hash b); WExec (txs b);
+   WCur b; WDelAddMark].
 
 (* ---- remove ---- *)
 Definition remove_pfx (b : block) : list write :=
@@ -84,7 +95,7 @@ Definition remove_pfx (b : block) : list write :=
 Definition remove_writes (s : st) (b : block) : list write :=
   match byHash (apply (remove_pfx b) s) (pre b) with
   | None => remove_pfx b                       (* "Query nil block header ... while removing": return false *)
-  | Some p => remove_pfx b ++ [WCur p; WDelRmMark]
+  | Some p => remove_pfx b ++ [WCur p] ++ map WUnexec (txs b) ++ [WDelRmMark]
   end.
 
 (* ---- ensureChainConsistency (run by initBlockChain when "bcurrent" exists) ---- *)
@@ -131,53 +142,68 @@ Inductive result := RSucc | RExisted | RNoPre | RQnLess | RFailed | RFuel.
 
 Definition is_some {A} (o : option A) : bool := match o with Some _ => true | None => false end.
 
+(* remove(): verifiedBlocks.Remove(hash) - once per removed block, i.e. per WDelHash *)
+Definition vf_after (ws : list write) (vf : N -> bool) : N -> bool :=
+  fold_left (fun v w => match w with WDelHash h => upd v h false | _ => v end) ws vf.
+
 (* ---- addBlockOnChain (recursive: after a reorg, and for a waiting orphan after a success).
-   Returns the writes, the result code and "out of fuel somewhere" (the Go recursion is unbounded). *)
-Fixpoint add_writes (fuel : nat) (fut : N -> option block) (s : st) (b : block) : list write * result * bool :=
+   Returns the writes, the result code, "out of fuel somewhere" (the Go recursion is unbounded) and
+   the verifiedBlocks cache afterwards. *)
+Fixpoint add_writes (fuel : nat) (fut : N -> option block) (vf : N -> bool) (s : st) (b : block)
+  : list write * result * bool * (N -> bool) :=
   match fuel with
-  | O => ([], RFuel, true)
+  | O => ([], RFuel, true, vf)
   | S f =>
     match cur s with
-    | None => ([], RFailed, false)                       (* no head: excluded by the invariant *)
+    | None => ([], RFailed, false, vf)                   (* no head: excluded by the invariant *)
     | Some top =>
-      if (hash b =? hash top) || is_some (byHash s (hash b)) then ([], RExisted, false) else
+      if (hash b =? hash top) || is_some (byHash s (hash b)) then ([], RExisted, false, vf) else
       match byHash s (pre b) with
-      | None => ([], RFailed, false)                     (* verifyBlock: code 2 *)
+      | None =>
+        (* verifyBlock: code 2; on a cache hit the checks are skipped and the weight test or the
+           failing parent lookup ends the call *)
+        ([], if vf (hash b) && (qn b <? qn top) then RQnLess else RFailed, false, vf)
       | Some anc =>
+        if negb (vf (hash b)) && existsb (exec s) (txs b) then ([], RFailed, false, vf) (* code -1 *)
+        else
+        let vf1 := upd vf (hash b) true in               (* checkStates: verifiedBlocks.Add *)
         let reorg :=
           let ws := rfca (N.to_nat (height top - height anc)) s (height anc) (height top) in
-          let '(ws2, r, ex) := add_writes f fut (apply ws s) b in
-          (ws ++ ws2, r, ex) in
+          let '(ws2, r, ex, vf2) := add_writes f fut (vf_after ws vf1) (apply ws s) b in
+          (ws ++ ws2, r, ex, vf2) in
         if pre b =? hash top then
           let ws := insert_writes b in
           match fut (hash b) with                        (* successOnChainCallBack *)
-          | None => (ws, RSucc, false)
-          | Some c => let '(ws2, _, ex) := add_writes f fut (apply ws s) c in (ws ++ ws2, RSucc, ex)
+          | None => (ws, RSucc, false, vf1)
+          | Some c => let '(ws2, _, ex, vf2) := add_writes f fut vf1 (apply ws s) c in (ws ++ ws2, RSucc, ex, vf2)
           end
-        else if qn b <? qn top then ([], RQnLess, false)
+        else if qn b <? qn top then ([], RQnLess, false, vf1)
         else if qn top <? qn b then reorg
         else match byHeight s (height anc + 1) with
-             | None => ([], RFailed, false)
-             | Some x => if pv_local_greater x b then ([], RQnLess, false) else reorg
+             | None => ([], RFailed, false, vf1)
+             | Some x => if pv_local_greater x b then ([], RQnLess, false, vf1) else reorg
              end
       end
     end
   end.
 
+(* volatile node state: waiting orphans and the verified-block cache *)
+Definition vol := ((N -> option block) * (N -> bool))%type.
+
 (* ---- AddBlockOnChain: consensusVerify (stub helper accepts), then addBlockOnChain ---- *)
-Definition deliver (fuel : nat) (fut : N -> option block) (s : st) (b : block)
-  : st * (N -> option block) * result :=
+Definition deliver (fuel : nat) (v : vol) (s : st) (b : block) : st * vol * result :=
+  let '(fut, vf) := v in
   match byHash s (pre b) with
-  | None => (s, upd fut (pre b) (Some b), RNoPre)
+  | None => (s, (upd fut (pre b) (Some b), vf), RNoPre)
   | Some _ =>
-    if is_some (byHash s (hash b)) then (s, fut, RExisted) else
-    let '(ws, r, _) := add_writes fuel fut s b in (apply ws s, fut, r)
+    if is_some (byHash s (hash b)) then (s, v, RExisted) else
+    let '(ws, r, _, vf') := add_writes fuel fut vf s b in (apply ws s, (fut, vf'), r)
   end.
 
-Fixpoint run (fuel : nat) (fut : N -> option block) (s : st) (hist : list block) : st * (N -> option block) :=
+Fixpoint run (fuel : nat) (v : vol) (s : st) (hist : list block) : st * vol :=
   match hist with
-  | [] => (s, fut)
-  | b :: r => let '(s', fut', _) := deliver fuel fut s b in run fuel fut' s' r
+  | [] => (s, v)
+  | b :: r => let '(s', v', _) := deliver fuel v s b in run fuel v' s' r
   end.
 
 (* ---- the canonical store for a chain (head first, genesis last) ---- *)
@@ -186,4 +212,5 @@ Definition findT (n : N) (l : list block) : option block := find (fun x => heigh
 
 Definition st_of (l : list block) : st :=
   mkS (fun h => findH h l) (fun n => findT n l) (fun n => option_map hash (findT n l))
-      (hd_error l) None None (fun r => existsb (fun b => root b =? r) l).
+      (hd_error l) None None (fun r => existsb (fun b => root b =? r) l)
+      (fun t => existsb (fun b => existsb (N.eqb t) (txs b)) l).
